@@ -263,7 +263,8 @@ def _cleanNumericValues(dataStr: str) -> str:
             except ValueError:
                 tail = "%s" % tail
                 if float(tail) == 0:
-                    tail = "0"
+                    # keep the sign of a negative zero ("-0" reads back as -0.0)
+                    tail = "-0" if tail.startswith("-") else "0"
             row = "%s = %s" % (head, tail)
         except (ValueError, errors.ParsingError):  # TODO: Is it really ok?
             pass
